@@ -296,6 +296,56 @@ pub fn draw_plan(prop: &str, index: u64, r: &mut Rng, thorough: bool) -> RunPlan
         // short where every operation is followed by a snapshot of the (huge) arena
         len = if cfg.has(O_STRUCT | O_ARENA) { 10 + r.below(6) as usize } else { 40 + r.below(120) as usize };
     }
+    // bulk builds with mass expiry (expiring-key world) / tens of thousands of copies in one
+    // range (segment tree): the scale at which a single call meets 10^5 expired entries
+    if index % 4_001 == 9 && !interpreted && !cfg.has(O_TORN) && bulk.is_none() && ord_bulk.is_none() && cfg.cap <= 1_000_000 {
+        match cfg.world {
+            WorldKind::Key => {
+                let with_list = cfg.colls & C_LIST != 0;
+                let n: i32 = if with_list { 70_000 } else { *r.pick(&[70_000, 150_000, 300_000]) };
+                let order = if with_list { 0 } else { r.below(2) as u8 };
+                let mode = 1 + r.below(4) as u8;
+                cfg.key_lo = 0;
+                cfg.universe = 2 * n + 16;
+                cfg.cap = cfg.cap.min(1000);
+                cfg.t0 = if cfg.key_ty == 1 { cfg.t0.clamp(0, 200) } else { cfg.t0.min(1 << 30) };
+                ord_bulk = Some((n, order + 2 * mode));
+                len = 20 + r.below(12) as usize;
+            }
+            WorldKind::Seg => {
+                cfg.t0 = if cfg.key_ty == 1 { cfg.t0.clamp(0, 200) } else { cfg.t0.min(1 << 30) };
+                ord_bulk = Some((*r.pick(&[40_000, 70_000, 140_000]), r.below(4) as u8));
+                len = 14 + r.below(12) as usize;
+            }
+            _ => {}
+        }
+    }
+    // callback-panic check: every fifth history starts from a population of 70-200 entries set up
+    // by one bulk step without crash points (most of them about to expire), so that the few
+    // operations that follow - each with every crash point - meet long lists, many lazy removals
+    // in one call, bucket lists beyond 64 copies
+    if cfg.has(O_TORN) && index % 5 == 1 && !interpreted {
+        let n: i32 = *r.pick(&[70, 70, 100, 130, 200]);
+        match cfg.world {
+            WorldKind::Key => {
+                let order = if cfg.colls & C_LIST != 0 { 0 } else { r.below(2) as u8 };
+                cfg.key_lo = 0;
+                cfg.universe = 2 * n + 8;
+                cfg.t0 = if cfg.key_ty == 1 { cfg.t0.clamp(0, 200) } else { cfg.t0.min(1 << 30) };
+                ord_bulk = Some((n, order + 2 * (1 + r.below(4) as u8)));
+            }
+            WorldKind::Seg => {
+                cfg.t0 = if cfg.key_ty == 1 { cfg.t0.clamp(0, 200) } else { cfg.t0.min(1 << 30) };
+                ord_bulk = Some((n, r.below(4) as u8));
+            }
+            _ => {
+                cfg.key_lo = 0;
+                cfg.universe = n + 8;
+                ord_bulk = Some((n, *r.pick(&[0u8, 1, 2, 3, 4])));
+            }
+        }
+        len = 4 + r.below(6) as usize;
+    }
     // thorough tier only: a giant build of the plain instantiation (2^25 + 7 keys ascending or
     // descending: a root-to-leaf path of 48 entries, beyond any "46 = 1.44 * 32" or "32" bound)
     if thorough && matches!(cfg.world, WorldKind::Map | WorldKind::Set) && cfg.colls == C_TREE && !cfg.has(O_TORN) && (index % 1_000_000) / 3 == 166_692 {
